@@ -91,7 +91,9 @@ TraceDisconnect ==
   /\ \E in \in {[ev |-> "disconnect"]} : \E r \in {Apply(cfg, st, in)} :
         /\ Observe(in, r, Line.o, Line.sg, NoLst)
         /\ LET nv == allviol \cup {<<n, l>> : n \in viol'}
-                     \cup (IF Line.return_ms <= 2000 THEN {} ELSE {<<"C16_PromptTermination", l>>})
+                     \* prompt: within the bound, and without hammering the LED server meanwhile (an in-flight frame, the
+                     \* final red frame and a retry or two are what the design sends after the stream has ended)
+                     \cup (IF Line.return_ms <= 2000 /\ Line.req_after <= 50 THEN {} ELSE {<<"C16_PromptTermination", l>>})
                      \cup (IF "leftover" \notin DOMAIN Line \/ Line.leftover = <<>> THEN {} ELSE {<<"C16_NoLeftover", l>>})
                      \cup (IF ~Judged(Line) \/ (AllRed(FrameOf(Line)) /\ Len(Line.frame) = Len(lay)) THEN {} ELSE {<<"C17_FinalRed", l>>})
            IN /\ allviol' = nv /\ brs' = Inc(brs, r.br)
